@@ -590,7 +590,7 @@ PDA_TEXT = ['initial p\n', 'final q\n', 'p p a,_x\n', 'p q _,__ b,x_\n', 'q q b,
 TM_TEXT = ['initial s\n', 'accept t\n', 'reject r\n', 's s aa,R __,L\n', 's t b_,R\n']
 
 
-def job_labels(job, kind):
+def job_labels(job, kind, history=False):
     """PDA labels 'a,uv' and TM labels 'ab,D': a concrete machine; one symbolic line is replaced / followed by a label of
     the wrong length -> must be rejected; the unchanged text must give exactly the machine written"""
     from gambatools.pda_algorithms import parse_pda
@@ -601,6 +601,21 @@ def job_labels(job, kind):
     base = PDA_TEXT if kind == 'pda' else TM_TEXT
     parse = parse_pda if kind == 'pda' else parse_tm
     badlabels = ['a', 'a,', 'a,x', 'a,xyz', ',xy', 'axy'] if kind == 'pda' else ['a', 'ab', 'ab,', 'b,R', 'abc,R']
+    if history:
+        # call history: another parser of the family has seen these very strings before as LEGAL multi-character input
+        # symbols of a DFA (a verdict remembered per label, not per format, would let them pass here)
+        from gambatools.dfa_algorithms import parse_dfa
+        legal = [l for l in badlabels if l.isalnum()]
+        prior = 'initial z\nfinal z\n' + ''.join('z z %s\n' % l for l in legal)
+        job.prior_text = prior
+        try:
+            parse_dfa(prior)
+        except L.LiftError:
+            raise
+        except Exception:
+            pass
+        del E.errors[:]
+        E.dead = FALSE
     lab = c.choice(badlabels, 'badlabel')
     where = c.choice([0, 1, 2], 'where')
     job.inputs['bad_label'] = lab
@@ -612,7 +627,7 @@ def job_labels(job, kind):
     multi = E.mk([(g, base[3][:-1] + ' ' + l + '\n') for l, g in c.alt_map(lab).items()])
     pieces = [(TRUE, s) for s in base[:3]] + [(wm[0], line_alts), (wm[1] ^ 1, base[3]), (wm[1], multi), (TRUE, base[4]), (wm[2], line_alts)]
     rope = L.GStr(pieces)
-    rp = ('label_text', {'kind': kind, 'text': lambda mv: rope_text(rope, mv), 'expect': 'error'})
+    rp = ('label_text', {'kind': kind, 'text': lambda mv: rope_text(rope, mv), 'expect': 'error', 'prior_dfa_text': getattr(job, 'prior_text', None)})
     res_b, failed_b, kinds = attempt(parse, rope)
     good = L.GStr([(TRUE, s) for s in base])
     rpg = ('label_text', {'kind': kind, 'text': ''.join(base), 'expect': 'same'})
@@ -637,6 +652,8 @@ def jobs(tier):
         J.append({'name': name, 'fn': fn, 'params': params, **({'timeout': timeout} if timeout else {})})
     q = tier == 'quick'
     tmo = 600 if q else 3000
+    add('labels_pda_after_dfa', job_labels, kind='pda', history=True, timeout=tmo)
+    add('labels_tm_after_dfa', job_labels, kind='tm', history=True, timeout=tmo)
     add('dfa_n2_k2', job_dfa, n=2, k=2, timeout=tmo)
     add('dfa_n2_k1', job_dfa, n=2, k=1, timeout=tmo)
     add('dfa_n3_k1', job_dfa, n=3, k=1, timeout=tmo)
@@ -713,6 +730,12 @@ def _replay_label_text(rp):
     from gambatools.pda_algorithms import parse_pda
     from gambatools.tm_algorithms import parse_tm
     parse = parse_pda if rp['kind'] == 'pda' else parse_tm
+    if rp.get('prior_dfa_text'):
+        from gambatools.dfa_algorithms import parse_dfa
+        try:
+            parse_dfa(rp['prior_dfa_text'])
+        except Exception:
+            pass
     r, obj = _replay_text(parse, rp, lambda o: nat.summary_of(rp['kind'], o))
     if r is not None:
         return r, obj
